@@ -170,16 +170,62 @@ def e2e_suite(ctx: Ctx, n: int) -> None:
     S.stop_flight_server()
 
 
+def enter_fault_suite(ctx: Ctx) -> None:
+    """The call fails while it is still setting the run up (after the manager process of a non-SYNC run was started): an extender
+    or api_data value that cannot be sent to the manager process.  The call must raise and leave no process or thread behind."""
+    from mloda.steward import Extender, ExtenderHook
+
+    class LockedExtender(Extender):
+        def __init__(self) -> None:
+            self.lock = threading.Lock()  # not picklable: cannot be handed to the manager process
+
+        def wraps(self) -> Set[Any]:
+            return {ExtenderHook.FEATURE_GROUP_CALCULATE_FEATURE}
+
+        def __call__(self, func: Any, *args: Any, **kwargs: Any) -> Any:
+            return func(*args, **kwargs)
+
+    base_threads = {t.ident for t in threading.enumerate()}
+    fs = S.flight_server()
+    flight_pid = fs.flight_server_process.pid
+    for k in range(ctx.budget(4, 30)):
+        spec = S.gen_spec(ctx.rng, max_feats=3, frameworks=("pa",), allow_options=False)
+        sess = S.prepare(spec, S.build_classes(spec))
+        for mode in ("thread", "mp", "sync"):
+            for stream in (False, True):
+                for what in ("extender", "api_data"):
+                    kw: Dict[str, Any] = {"extenders": {LockedExtender()}} if what == "extender" else {"api_data": {"VerifKey": {"col": [threading.Lock()]}}}
+                    before = S.flight_keys()
+                    rr = S.run_session(sess, mode, stream=stream, timeout=60, attempts=1, **kw)
+                    left = leftovers(base_threads, flight_pid)
+                    case = {"spec": spec, "mode": mode, "stream": stream, "unpicklable": what}
+                    ctx.case("enter_fault", case, mode != "sync", mode=mode, stream=stream, what=what, outcome="timeout" if rr.timed_out else ("raise" if rr.error else "return"))
+                    if rr.timed_out:
+                        ctx.violation("enter_fault", case, "call did not end", None, None)
+                        S.kill_stray_children()
+                        continue
+                    if mode != "sync" and rr.error is None:
+                        ctx.violation("enter_fault", case, f"call returned although its {what} cannot be sent to the manager process", "returned", "raise")
+                    if left["threads"] or left["processes"]:
+                        ctx.violation("enter_fault", case, f"processes/threads of the call are still alive after it {'raised' if rr.error else 'returned'} during set-up: {left}", left, {"threads": [], "processes": []})
+                        S.kill_stray_children()
+                    new = sorted(S.flight_keys() - before)
+                    if new:
+                        ctx.violation("enter_fault", case, f"{len(new)} dataset(s) left in the flight store", new, [])
+    S.stop_flight_server()
+
+
 def run(ctx: Ctx) -> None:
     ctx.extra["rule"] = (
         "tracker: seeded report/upload sequences on a real ComputeFramework object vs the Lean tracker model; join_all: recording fake tasks with failing joins; "
         "e2e: generated plans (DAGs, multi-framework chains with transform steps, two-source joins) x MULTIPROCESSING (+ THREADING/SYNC samples) x "
-        "{success, failure injected at a seeded step, success again} x {run, stream_run} against ONE long-lived flight server: after every call the store "
+        "{success, failure injected at a seeded step, success again; failure while the run is set up (extender / api_data that cannot be sent to the manager process)} x {run, stream_run} against ONE long-lived flight server: after every call the store "
         "listing must not have grown and no thread/process of the run may be alive; non-trivial = MULTIPROCESSING run with an upload or an injected failure"
     )
     tracker_suite(ctx)
     joinall_suite(ctx)
     e2e_suite(ctx, ctx.budget(16, 300))
+    enter_fault_suite(ctx)
 
 
 def search(ctx: Ctx, broken: List[str]) -> None:
